@@ -981,6 +981,49 @@ func sha256Only(c *Ctx, sl map[ssa.Value]bool) bool {
 }
 
 var factContentDigest = &fact{id: "content-digest", what: "the signed messageDigest equals the SHA-256 of the encapsulated content (or the blob is detached: no content)",
+	undecided: func(c *Ctx, fn *ssa.Function) string {
+		// the messageDigest is compared with a SHA-256 whose input reaches the test
+		// through the fields of a carrier object (a memo, a small reader type): the
+		// slicer does not connect those fields to the content
+		reach, _ := c.Reachable([]*ssa.Function{fn})
+		why := ""
+		for g := range reach {
+			if !c.P.InLib(g) || why != "" {
+				continue
+			}
+			for _, ce := range ir.CondEdges(g) {
+				a, b, ok := equalityOperands(ce)
+				if !ok {
+					continue
+				}
+				sa, sb := c.sliceOf(a), c.sliceOf(b)
+				attr := func(s map[ssa.Value]bool) bool { return ir.HasField(s, M+"/pkcs7.Attributes.MessageDigest") }
+				other := sa
+				switch {
+				case attr(sa) && !attr(sb):
+					other = sb
+				case attr(sb) && !attr(sa):
+					other = sa
+				default:
+					continue
+				}
+				if !sha256Only(c, other) || ir.HasField(other, M+"/pkcs7.PKCS7.ContentInfo") {
+					continue
+				}
+				for v := range other {
+					id := ir.FieldID(v)
+					if id == "" || !strings.HasPrefix(id, M+"/") {
+						continue
+					}
+					if strings.HasPrefix(id, M+"/pkcs7.PKCS7.") || strings.HasPrefix(id, M+"/pkcs7.signerinfo.") || strings.HasPrefix(id, M+"/pkcs7.Attributes.") {
+						continue
+					}
+					why = "the compared SHA-256 is taken from " + shortID(id) + " in " + name(g) + "; what was hashed into that carrier is not traced"
+				}
+			}
+		}
+		return why
+	},
 	direct: func(c *Ctx, fn *ssa.Function, ce ir.CondEdge) bool {
 		// detached: len(content) == 0 on this edge, content deriving from PKCS7.ContentInfo
 		if cmp, ok := ce.Cond.(*ssa.BinOp); ok {
